@@ -241,7 +241,7 @@ impl Engine for C09 {
     fn runs(&self, tier: Tier) -> u64 {
         match tier {
             Tier::Quick => 200_000,
-            Tier::Thorough => 2_400_000,
+            Tier::Thorough => 6_000_000,
         }
     }
 
